@@ -93,7 +93,7 @@ class UnitRun:
         if funcs:
             # one invocation per function (Verus takes a single --verify-function); run them in parallel
             def one(f):
-                run = vrun.run_verus(self.rs, seed=seed, rlimit=RLIMIT, extra=['--verify-root', '--verify-function', f], multiple_errors=multiple_errors)
+                run = vrun.run_verus(self.rs, seed=seed, rlimit=RLIMIT, extra=(['--verify-only-module', self.meta['module']] if self.meta.get('module') else ['--verify-root']) + ['--verify-function', f], multiple_errors=multiple_errors)
                 return vrun.parse(run, self.meta), run
             merged = None
             with ThreadPoolExecutor(max_workers=8) as ex:
@@ -113,7 +113,7 @@ class UnitRun:
                         merged['rlimit_hit'] = merged['rlimit_hit'] or res['rlimit_hit']
             res = merged
         else:
-            run = vrun.run_verus(self.rs, seed=seed, rlimit=RLIMIT, threads=16, multiple_errors=multiple_errors)
+            run = vrun.run_verus(self.rs, seed=seed, rlimit=RLIMIT, threads=16, multiple_errors=multiple_errors, module=self.meta.get('module'))
             res = vrun.parse(run, self.meta)
             res['wall_s'] = run['wall_s']
             res['cmd'] = run['cmd']
@@ -181,9 +181,10 @@ PROPS = {
     'C05': {'legs': [V('book', variant='nodisc', defines={'defs': ['nodisc']}, tags=['C01', 'C02', 'C03', 'C04', 'C06', 'C07'], canary=False,
                        note='book unit with the clock-discipline conjuncts of place_pre / replace_pre / orders_ok removed')], 'design': '§5 C05'},
     # C12 quantifies over arbitrary modify prices: the grid clause of modify_order is checked without an on-grid precondition in a variant
-    'C12': {'legs': [V('book'), V('book', variant='c12', defines={'defs': ['finding_c12']}, only_fns=['OrderBook::modify_order'], canary=False,
+    'C12': {'legs': [V('book'), V('market'), V('book', variant='c12', defines={'defs': ['finding_c12']}, only_fns=['OrderBook::modify_order'], canary=False,
                                   note='modify_order with the unconditional grid clause (expected refutation, known finding)')], 'design': '§5 C12'},
-    'C13': {'legs': [V('book')], 'design': '§5 C13'},
+    'C13': {'legs': [V('book'), V('market')], 'design': '§5 C13'},
+    'C14': {'legs': [V('market')], 'design': '§5 C14'},
 }
 
 
